@@ -386,10 +386,16 @@ pub fn gen(prop: &str, rng: &mut Rng, thorough: bool, out: &mut Sink) {
     let ndefs = if thorough { 1500 } else { 120 };
     let ntexts = if thorough { 150 } else { 40 };
     for d in 0..ndefs {
-        let byte_complete = prop == "C01";
+        // C02 too: some byte-complete vocabularies, so that byte fallback of characters without an entry succeeds
+        // and the ids have to spell the text byte by byte
+        let byte_complete = prop == "C01" || (prop == "C02" && d % 6 == 5);
         let mut def = gen_full_definition(rng, byte_complete, byte_complete && d % 2 == 0);
         if prop == "C18" && d % 2 == 1 {
             c18_spice(rng, &mut def);
+        }
+        if prop == "C07" && d % 3 == 2 {
+            // the list of specials is the split priority as given: it need not be sorted by kind
+            crate::gen::shuffle(rng, &mut def.specials);
         }
         if prop == "C18" && d % 12 == 5 {
             // outside `LoadableWF` (the hypothesis of `loaded_tokenizer_never_panics`) and outside the model: the
